@@ -368,6 +368,39 @@ class GetItem(_M):
 
 
 @register
+class GetItemNoneValue(_M):
+    """a present key whose value is None is present: it is returned, nothing is stored (both with and without factory)"""
+    method = "__getitem__"
+    cases = ["factory", "nofactory"]
+
+    @property
+    def name(self):
+        return self.target + "/none-value"
+
+    def build(self, E, case):
+        DOD, CIOD = classes()
+        k = E.str("k0")
+        E.assume(S.eq(S.lower(k), k))
+        fac = CIOD if case == "factory" else None
+        if E.symbolic:
+            d = BaseMDict(pycls=CIOD, ci=False, factory=fac, entries=[(k, None), ("other", E.str("v1"))])
+        else:
+            d = CIOD(fac)
+            OrderedDict.__setitem__(d, k, None)
+            OrderedDict.__setitem__(d, "other", E.str("v1"))
+        E.assume(k != "other")
+        q = E.str("q")
+        E.assume(S.eq(S.lower(q), k))
+        return (d, q), {}
+
+    def ensures(self, E, case, args, kwargs, out):
+        d, q = args
+        yield "returns-the-stored-None", out.kind == "return" and out.value is None
+        st = state_of(d)
+        yield "state-unchanged", len(st) == 2 and st[0][1] is None
+
+
+@register
 class SetItem(_M):
     method = "__setitem__"
 
